@@ -96,7 +96,8 @@ CLAIMED["C04"] = dict(
          "controls and any TIME >= rules the statuses at every solved step are those of an explicit per-link specification (a control since the "
          "last rule instant wins, else the winning true rule, else the latest control, else the initial status; at a coinciding instant "
          "controls act after the rules), and at EVERY time up to the end of the run the specification gives the statuses of the latest solved "
-         "step -- nothing that changes a status is stepped over; total correctness; proof through the three branches of the presolve loop. The model also "
+         "step -- nothing that changes a status is stepped over; total correctness; proof through the three branches of the presolve loop; and a rule with a RANGE condition and an ELSE part (TIME >= a "
+         "AND TIME < b) keeps its link at the THEN value exactly while the last rule instant lies in [a, b) (C04/RuleInterval.v). The model also "
          "proves (by evaluation) what the CURRENT code does wrong: daily clock-time controls act at 2x the threshold, 'before' clock "
          "conditions are never true, rules are evaluated at t=0 -- recorded as known findings. Tie decided inside coqc: the (time, status) "
          "trace of the real simulator equals Sched.run for every generated configuration of controls and rules (exact).",
